@@ -70,6 +70,9 @@ func checkC08(ctx *Ctx, r *Report, tier string) {
 	}
 	r.check("U5", "msToLines|edge-vertex-from-its-own-corners", kf.pos, kf.pairOK && kf.interpA+kf.interpB == 1, kf.pairDetail)
 	interpSymmetry2(ctx, r, "render", "msInterpolate", "U5")
+	if kf2 := ctx.ssaFunc("render", "msToLines"); kf2 != nil {
+		everyFlaggedEdgeInterpolated(ctx, r, "U10", kf2, "msInterpolate", 4)
+	}
 	r.floor("U5", 3)
 
 	// corner numbering
